@@ -657,7 +657,9 @@ pub async fn start_replication_thread(
                         strategy: _,
                     } => {
                         let db_id = get_db_id(name, &dbs);
-                        let key_id = 1;
+                        // Reserved id, the oplog query keeps one record per (db, key) and a real
+                        // key with id 1 used to replace (or be replaced by) this record
+                        let key_id = u64::MAX;
                         log::debug!("Will write CreateDb");
                         Oplog::try_write_op_log(
                             &mut op_log_stream,
@@ -676,7 +678,7 @@ pub async fn start_replication_thread(
                             .map(|db| {
                                 log::debug!("Will write ReplicateSnapshot db {}", db);
                                 let db_id = get_db_id(db.to_string(), &dbs);
-                                let key_id = 2; //has to be different
+                                let key_id = u64::MAX - 1; // reserved, has to be different from every key id
                                 log::debug!("Will write ReplicateSnapshot");
                                 Oplog::try_write_op_log(
                                     &mut op_log_stream,
